@@ -200,6 +200,7 @@ func (fx *FuncExec) eval(st *State, e ast.Expr) Term {
 					recv := fx.eval(st, e.X)
 					name := "mv_" + sanitize(funcKeyOf(fn))
 					fx.reg.declFun(name, fmt.Sprintf("(declare-fun %s (%s) Fn)", name, recv.Sort))
+					st.assume(not(eq("("+name+" "+recv.S+")", "fn_nil")))
 					return Term{S: "(" + name + " " + recv.S + ")", Sort: "Fn", T: fx.typeOf(e)}
 				}
 				return Term{S: fx.fresh("methodval", "Fn"), Sort: "Fn", T: fx.typeOf(e)}
@@ -654,6 +655,7 @@ func (fx *FuncExec) assignTo(st *State, lhs ast.Expr, val Term) {
 			fx.oblige(st, "panic/index", "", and("(<= 0 "+i.S+")", "(< "+i.S+" (slen "+base.S+"))"), "index in range: "+trunc(exprString(l), 60), l.Pos())
 			comp := fx.reg.sliceComp(u.Elem())
 			ref := "(sref " + base.S + ")"
+			fx.frameWrite(st, comp, ref, l.Pos())
 			fx.setH(st, comp, store(fx.H(st, comp), ref, store(sel(fx.H(st, comp), ref), "(+ (soff "+base.S+") "+i.S+")", val.S)))
 		default:
 			fx.unsupported(l.Pos(), "index store on %s", bt)
@@ -663,6 +665,7 @@ func (fx *FuncExec) assignTo(st *State, lhs ast.Expr, val Term) {
 		fx.nilCheck(st, p, l.Pos(), "store")
 		if pi := fx.ptrInfoBySort(p.Sort); pi != nil {
 			val = fx.convert(st, val, pi.Elem)
+			fx.frameWrite(st, pi.Comp, p.S, l.Pos())
 			fx.setH(st, pi.Comp, store(fx.H(st, pi.Comp), p.S, val.S))
 			return
 		}
@@ -684,6 +687,7 @@ func (fx *FuncExec) storeField(st *State, si *StructInfo, ref, field string, val
 			fx.copyInto(st, sel(fx.H(st, comp), ref), val.S, sub, false)
 			return
 		}
+		fx.frameWrite(st, comp, ref, pos)
 		fx.setH(st, comp, store(fx.H(st, comp), ref, val.S))
 		return
 	}
@@ -711,6 +715,7 @@ func (fx *FuncExec) hasField(si *StructInfo, field string) bool {
 }
 
 func (fx *FuncExec) mapStore(st *State, mi *MapInfo, m, k, v string) {
+	fx.frameWrite(st, mi.Dom, m, fx.curPos)
 	fx.setH(st, mi.Dom, store(fx.H(st, mi.Dom), m, store(sel(fx.H(st, mi.Dom), m), k, "true")))
 	fx.setH(st, mi.Val, store(fx.H(st, mi.Val), m, store(sel(fx.H(st, mi.Val), m), k, v)))
 }
@@ -718,6 +723,9 @@ func (fx *FuncExec) mapStore(st *State, mi *MapInfo, m, k, v string) {
 func (fx *FuncExec) mapDelete(st *State, mi *MapInfo, m, k string) {
 	// delete on a nil map is a no-op; dom[null] is empty and stays empty
 	cond := not(eq(m, "null_"+mi.Sort))
+	st.guards = append(st.guards, cond)
+	fx.frameWrite(st, mi.Dom, m, fx.curPos)
+	st.guards = st.guards[:len(st.guards)-1]
 	fx.setH(st, mi.Dom, ite(cond, store(fx.H(st, mi.Dom), m, store(sel(fx.H(st, mi.Dom), m), k, "false")), fx.H(st, mi.Dom)))
 }
 
